@@ -54,14 +54,21 @@ def compile_liquid_rules(
         rf"{tag_s}-?\s*enddoc\s*(?P<rsd>-?){tag_e}"
     )
 
-    output_pattern = rf"{stmt_s}-?\s*(?P<stmt>.*?)\s*(?P<rss>-?){stmt_e}"
+    # Every run of whitespace is matched by exactly one `\s*`, so unterminated markup followed
+    # by a lot of whitespace does not make the pattern backtrack polynomially: an expression
+    # starts and ends with a non-space, and the whitespace before the closing delimiter is
+    # only looked for after an expression.
+    output_pattern = (
+        rf"{stmt_s}-?\s*(?P<stmt>(?:\S(?:.*?\S)??)??)(?:(?<=\S)\s*)?(?P<rss>-?){stmt_e}"
+    )
 
     # The "name" group is zero or more characters so that a malformed tag (one
     # with no name) does not get treated as a literal.
     #
     # The `#` in the `name` group is specifically for the inline comment tag.
     tag_pattern = (
-        rf"{tag_s}-?(?P<pre>\s*(?P<name>#|\w*)\s*)(?P<expr>.*?)\s*(?P<rst>-?){tag_e}"
+        rf"{tag_s}-?(?P<pre>\s*(?P<name>#|\w*)(?:(?<=[#\w])\s*)?)"
+        rf"(?P<expr>(?:\S(?:.*?\S)??)??)(?:(?<=\S)\s*)?(?P<rst>-?){tag_e}"
     )
 
     if not comment_start_string:
